@@ -75,7 +75,7 @@ theorem C02_partial (ds : Dataset) (hwf : WFData ds) (p : Params) (hmw : 0 ≤ p
   · exact C01_modulo_cleanup (ds.restrict (ds.connSetOf (ds.scenarioOf p))) (ds.connSetOf (ds.scenarioOf p)) p _ _
       (ds.connSetOf (ds.scenarioOf p)).rev (fun c hc => hc) (connSetOf_sorted ds _) hm hmw (ds.mwOfTrip p)
       (fun c hc => conns_effWait hwf.toWFSchedule p c (hsub c hc)) hclean h
-  · obtain ⟨depT, arrT, bd, j, rfl, hJ⟩ := calculateSingleWith_emits _ _ p _ _ (connSetOf_sorted ds _) hm hmw hclean h
+  · obtain ⟨depT, arrT, bd, j, rfl, hJ, _⟩ := calculateSingleWith_emits _ _ p _ _ (connSetOf_sorted ds _) hm hmw hclean h
     obtain ⟨acc, legs, egr, rfl, hacc, hegr, hne, hok, _, _⟩ := hJ
     obtain ⟨hsteps, _⟩ := emit_steps (ds.restrict (ds.connSetOf (ds.scenarioOf p))) p.minWait bd acc egr legs hacc hegr hne hok.allLegs
     rw [hsteps]
@@ -83,5 +83,19 @@ theorem C02_partial (ds : Dataset) (hwf : WFData ds) (p : Params) (hmw : 0 ≤ p
     rcases List.mem_cons.mp hs with h0 | h0
     · rw [h0] at heq; cases heq
     · exact stepsOfLegs_transfer _ _ egr legs (bd + acc.walk) hok s h0 tt d dep arr rdy heq
+
+/-- **C02 (time clauses proved so far).** A returned route never leaves before a requested
+    departure time; for an arrival-time query its span back from the requested time is at most
+    max_travel_time; it never leaves before 0:00. -/
+theorem C02_times (ds : Dataset) (hwf : WFData ds) (p : Params) (hmw : 0 ≤ p.minWait) (hmt : 0 ≤ p.maxTransfer)
+    {r : Route} (h : calculateSingle ds p = .ok r) :
+    0 ≤ r.departureTime ∧ (p.forward = true → p.time ≤ r.departureTime) ∧
+    (p.forward = false → p.time - r.departureTime ≤ p.maxTotal) := by
+  have hsub := connSetOf_rev_sub ds (ds.scenarioOf p)
+  have hm : ArrMono (ds.connSetOf (ds.scenarioOf p)).rev :=
+    fun x hx y hy => conns_arrMono hwf.toWFSchedule x (hsub x hx) y (hsub y hy)
+  obtain ⟨depT, arrT, bd, j, rfl, _, h0, h1, h2⟩ := calculateSingleWith_emits _ _ p _ _ (connSetOf_sorted ds _) hm hmw
+    (fun depT arrT => cleanupPreserves (timeWF_dataset hwf p hmw hmt _ _ _ depT arrT) (sliceOK_dataset hwf p _ _ _ depT arrT)) h
+  exact ⟨h0, h1, h2⟩
 
 end Tr
